@@ -67,6 +67,58 @@ def nsec_alternatives(P, rep, rid):
                   'alternatives entering the accepting block: %s%s' % ([a[0] for a in alts], '; not allowed: %s' % bad if bad else ''), function='scan_file', construct='nsec alternatives')
 
 
+def block_count_fits_rule(P, rep, rid):
+    """a file has ceil(size / block_size) blocks, kept in a 32-bit block_off_t.  With the smallest block sizes a sparse file of a few TiB
+    has 2^32 blocks or more: narrowed silently, a 4 TiB file is recorded -- and hashed, and protected -- as 2 blocks, sync ends
+    `Everything OK`, and the content file it wrote is rejected by every later command.  file_alloc is interpreted (E10) for counts
+    around 2^32: either the exact count is stored, or the file is refused before anything is recorded."""
+    from .. import region as RG
+    rep.rule(rid, 'file_alloc: the number of blocks of a file is stored exactly or the file is refused (no silent narrowing to 32 bits)', 6)
+    f = P.fn('file_alloc')
+    rep.analysed(f)
+    lay = P.distructs.get('snapraid_file')
+    if not lay:
+        raise AnalysisBroken('struct snapraid_file not found')
+    fo = {m['name']: m['off'] for m in lay['members']}
+    bs = 1024
+    class _Exit(Exception):
+        pass
+    for count in (0, 1, 3, (1 << 32) - 1, (1 << 32), (1 << 32) + 2):
+        size = count * bs - (5 if count else 0)
+        objs = [0]
+        def ext(ins, args):
+            c = ins.callee
+            if c in ('malloc_nofail', 'strdup_nofail'):
+                objs[0] += 1
+                reg = ('heap', objs[0])
+                R.zero_regions.add(reg)
+                return (RG.P_(reg, 0),)
+            if c in ('log_fatal', 'log_error'):
+                return (0,)
+            if c == 'exit':
+                raise _Exit()
+            return None
+        R = RG.Region(P, extern=ext, max_steps=4000)
+        R.zero_regions.add(('glob', 'exit_failure'))
+        R.mem[(('glob', 'BLOCK_HASH_SIZE'), 0)] = 16
+        refused = False
+        got = None
+        try:
+            R.run(f, 0, [bs, RG.P_(('str', 'sub'), 0), size, 0, 0, 0, 0])
+        except _Exit:
+            refused = True
+        except RG.Unsupported as e:
+            # the loop that initialises the blocks runs `blockmax` times: the step budget ends it; what matters was stored before
+            if 'step budget' not in str(e):
+                raise AnalysisBroken('cannot interpret file_alloc: %s' % e)
+        if not refused:
+            got = R.mem.get((('heap', 1), fo['blockmax']))
+        ok = refused if count > 0xFFFFFFFF else (not refused and got == count)
+        rep.check(ok, rid, 'file of %d blocks' % count, f.file,
+                  'refused' if refused and ok else ('blockmax = %s' % got if ok else ('refused although the count fits' if refused else 'blockmax = %s for a file of %d blocks: the count is narrowed to 32 bits -- the file is hashed and protected for %s blocks only, sync succeeds, and the content file it writes (size %d with %s blocks) is rejected as inconsistent by every later command' % (got, count, got, size, got))),
+                  function='file_alloc', construct='block count narrowed')
+
+
 def run(ctx, rep):
     P = ctx.prog
     rep.explanation = ('Scan classification over all operation sequences is behaviour over run-time directory contents: NOT decided. Decided: (1) every site that decides "this is the recorded file, unchanged" compares at '
@@ -218,6 +270,7 @@ def run(ctx, rep):
                       function='scan_file', construct='%s converges' % member)
 
     need_write_rule(P, rep, 'R-C11-3w')
+    block_count_fits_rule(P, rep, 'R-C11-9')
     from .C19 import inode_trust_rule
     inode_trust_rule(P, rep, 'R-C11-5')
     invalid_walk_rule(P, rep, 'R-C11-7')
